@@ -349,7 +349,12 @@ def check_convert_value(val: str, char: Characteristic) -> Any:
     if char.format in NUMBER_TYPES:
         try:
             val = Decimal(val)
-        except ValueError:
+        except (ValueError, TypeError, ArithmeticError):
+            # Decimal("abc") raises decimal.InvalidOperation, an ArithmeticError
+            raise FormatError(f'"{val}" is no valid "{char.format}"!')
+
+        if not val.is_finite():
+            # NaN and Infinity cannot be clamped, rounded or written
             raise FormatError(f'"{val}" is no valid "{char.format}"!')
 
         if char.minValue is not None:
